@@ -2414,6 +2414,19 @@ def _nested_selection(outer, inner):
         return outer + inner
 
 
+def _rewrite_positional_selection(expr, kind: str):
+    """``Expr.rewrite`` of the expressions that select partitions by position
+
+    Tuning changes how a collection is partitioned (the partitions of a cheap
+    read are fused, a groupby result is split into several partitions), while
+    the positions refer to the partitions of the collection that the user sees:
+    nothing underneath such a selection is tuned.
+    """
+    if kind == "tune":
+        return expr
+    return Expr.rewrite(expr, kind)
+
+
 class Head(Expr):
     """Take the first `n` rows of the first partition"""
 
@@ -2460,6 +2473,12 @@ class Head(Expr):
 
         if isinstance(parent, Repartition) and parent.new_partitions == 1:
             return self
+
+    def rewrite(self, kind: str):
+        if self.operand("npartitions") == -1:
+            # every partition: it doesn't matter how the rows are partitioned
+            return super().rewrite(kind)
+        return _rewrite_positional_selection(self, kind)
 
     def _lower(self):
         if not isinstance(self, BlockwiseHead):
@@ -2573,6 +2592,9 @@ class Tail(Expr):
 
         if isinstance(parent, Repartition) and parent.new_partitions == 1:
             return self
+
+    def rewrite(self, kind: str):
+        return _rewrite_positional_selection(self, kind)
 
     def _lower(self):
         if not isinstance(self, BlockwiseTail):
@@ -2959,6 +2981,9 @@ class Partitions(Expr):
             # We assume that expressions defining a special "_partitions"
             # parameter can internally capture the same logic as `Partitions`
             return self.frame.substitute_parameters({"_partitions": partitions})
+
+    def rewrite(self, kind: str):
+        return _rewrite_positional_selection(self, kind)
 
     def _node_label_args(self):
         return [self.frame, self.partitions]
